@@ -150,10 +150,19 @@ class FloatE(SymE):
     def sqrt(self, x):
         return self.e.spec_sqrt(x)
 
+    def use_contract(self, qual, summary):
+        pass  # concrete run: the real callee body is executed
+
+    def drop_contract(self, qual):
+        pass
+
     def trig_sum(self, a, b):
         pass
 
     def trig_neg(self, a):
+        pass
+
+    def trig_double_all(self):
         pass
 
     def trig_period(self, a, k=1):
